@@ -16,8 +16,14 @@ CLAIMED = {
             "trusted: as C03; termination of the DFS argued on paper; deep recursion (RecursionError on ~1000-deep chains) is NOT decided by these contracts", "4 C04"),
     "C05": ("proof", "one schedule() serves status, dry run and run: the three real callbacks refine one interface, so the table and the submission log are the same function of the initial state; with a non-submitting callback (status, dry run) the scheduler ghost, the tracked ids and every spec-hash answer are proved unchanged, `gwf run --dry-run` removes no log; filter composition is proved pointwise. Output formatting (print_table/print_summary) and the status command body are not under contract yet.",
             "trusted: click, StatusFilter (8 lines, modelled), endpoint-cover meta-lemma (every target lies in the cone of some endpoint), z3, pyvc encoding", "4 C05"),
+    "C07": ("other", "mixed: TrackingBackend.submit is proved to pass exactly the ids tracked for the given dependencies to ops.submit_target and to track the returned id; SlurmOps/SGEOps/LSFOps.submit_target are proved to call sbatch/qsub/bsub with exactly the afterok / hold_jid / done()&& lists and to return the printed id stripped. The local client and the end-to-end id round trip are checked only by the bounded stand-in ops-command-lines (scripted fake scheduler commands). 'never starts before its prerequisites finished' is a consequence under the schedulers' documented dependency semantics (assumed).",
+            "assumed: afterok / hold_jid / done() semantics, subprocess delivers argv unchanged, utils.call's own body; bounded: ops-command-lines (ids 11/12/13, three backends); z3; pyvc encoding", "4 C07"),
+    "C08": ("other", "mixed: TrackingBackend.status == state of the id tracked for the target's name (UNKNOWN when absent), ids loaded from the file written by the previous close, submit overwrites the entry; Slurm merge proved (squeue wins over sacct; no sacct call when accounting is off). The per-scheduler classification tables, line parsing, the 1024-id batching and SGE/LSF/local queries are checked only by the bounded stand-in ops-state-tables (documented state codes through fake squeue/sacct/qstat/bjobs). Local-pool id reuse after a restart is NOT covered (documented assumption).",
+            "assumed: scheduler output formats; ids not reused while tracked (false for a restarted local pool); bounded: ops-state-tables; z3; pyvc encoding", "4 C08"),
     "C09": ("proof", "TrackingBackend.submit/close/__exit__, submit_backend, schedule and the run command are proved: a rejected submission leaves no trace (no tracked id, no hash), the hash is recorded only after the backend accepted, and on every exit of `gwf run` after the backend was created - normal, BackendError, OSError at close - the tracked-jobs file holds exactly the backend's ids. A hard kill between two submissions (ids durable only at exit) and torn writes are NOT covered: see level_note.",
             "not decided: process kill between submissions / during json.dump (crash invariants on the state files are not generated yet); trusted: json round trip, scheduler id freshness, z3, pyvc encoding", "4 C09"),
+    "C10": ("other", "mixed: option resolution in submit_backend is proved (backend default < target options, unknown keys dropped, None omitted: whole-dictionary postcondition); clean_logs is called only when clean_logs is truthy and not on a dry run (run command contract). The job scripts themselves (directive per option, quoted cd, set -e before the spec, spec verbatim with trailing newline, log paths) are decided only by the bounded stand-in job-scripts-under-bash, which executes the generated scripts with bash; known finding F11 (LSF placeholder for a None option) is reported as KNOWN-FINDING.",
+            "not proved: compile_script line order (no unbounded contract), Workflow.target/template precedence, clean_logs body; assumed: bash and scheduler directive semantics; bounded: job-scripts-under-bash (3 backends x 4 directory names x each default option removed)", "4 C10"),
     "C11": ("proof", "try_handle_task is proved, under a rely/guarantee model of asyncio (every await is an interference point and a possible CancelledError), to create the process only when every dependency is COMPLETED (precondition of create_subprocess_shell, carried across the acquire await by the stability rely) and to end non-completed without a process otherwise.",
             "trusted: asyncio facts (cooperative scheduling, wait(ALL_COMPLETED), cancellation delivery, done is permanent), the rely relation is justified by the contracts of enqueue_task/cancel_task (write-site guarantee) but the counting argument over all coroutines is a meta-step; z3; pyvc encoding", "4 C11"),
     "C12": ("proof", "ghost `held` per coroutine: release() is proved to be called only by a coroutine that acquired a core and, once a process exists, only after it ended or was sent the kill sequence; the process is created only while holding a core; no exit leaves a core held. The converse (no idle core while a ready task waits) is asyncio.Semaphore's wake-up guarantee: assumed.",
@@ -39,9 +45,6 @@ CLAIMED = {
 }
 NOT_YET = {
     "C06": "convergence is a lemma over the contracts of C01/C02/C07 under environment assumptions E1-E5; the lemma obligations are not generated yet in this round",
-    "C07": "TrackingBackend.submit (ids of exactly the given dependencies reach ops.submit_target) is proved under C09; the per-backend command lines (sbatch/qsub/bsub/local) are not under contract yet",
-    "C08": "TrackingBackend.status/_init_tracked are proved (under C09/C05); the per-backend state tables and merge logic are not under contract yet",
-    "C10": "option resolution in submit_backend is proved (under C05); compile_script of the three cluster backends and log-path agreement are not under contract yet",
     "C19": "workflow definition (Workflow.target/map, name/path validators, find_workflow): contracts not written yet in this round",
 }
 
